@@ -45,7 +45,8 @@ def build(i, check):
             outcome[n] = o
     triggers = []
     if kind == "wait-optional":
-        t = Opt(Ref("A", "outputs", "success", "tag"), True)
+        t = Opt(rng.choice([Ref("A", "outputs", "success", "tag"), Ref("A", "outputs", "success", "tag"), Ref("A", "disabled", "output", "message"), Ref("A", "enabling", "resolved", "enabled"),
+                            Ref("A", "crashed", "error", "output"), Ref("A", "deploy_failed", "error", "error"), Ref("A", "outputs", "error", "reason")]), True)
     elif kind == "soft-optional":
         t = Opt(Ref("A", "outputs", "success", "tag"), False)
     elif kind == "soft-optional-never-ending":
@@ -53,7 +54,8 @@ def build(i, check):
         outcome["A"] = "hang"
         oa = "hang"
     elif kind == "oneof":
-        t = OneOf("which", {"a": Expr(Ref("A", "outputs", "success")), "b": Expr(Ref("B", "outputs", "success"))})
+        na, nb = rng.choice([("a", "b"), ("v1.0", "v2.0"), ("opt.a", "b"), ("A-1", "B_2")])
+        t = OneOf("which", {na: Expr(Ref("A", "outputs", "success")), nb: Expr(Ref("B", "outputs", "success"))})
     elif kind == "ordisabled":
         t = OrDisabled(Ref("A", "outputs", "success"))
     else:
@@ -105,7 +107,7 @@ def monitor(case, res, sem, g):
         for w in waits:
             srcname = w.node.step
             st = sem.state(srcname)
-            if srcname in ("A", "B") and (st.executed or st.deployed is False):
+            if srcname in ("A", "B") and w.node.stage in ("outputs", "crashed", "deploy_failed") and (st.executed or st.deployed is False):
                 f = finish_seq(res, srcname)
                 if f is None or f > cstart[0]["seq"]:
                     vs.append(mon.V("C15", "wait-optional@consumer-started-before-source-finished", "C started at seq %d, source %s finished at %s" % (cstart[0]["seq"], srcname, f)))
